@@ -123,73 +123,69 @@ func perModuleImages(ctx context.Context, s Src) ([]bufimage.Image, error) {
 }
 
 func runChecksAPI(ctx context.Context, t fataler, r *evid.Recorder, c *ChkCase) {
-	full, err := c.Src.buildFull(ctx)
+	// The unit of lint / breaking for a workspace is the module (each module is checked as the target
+	// with the other modules as its dependencies), so the image that "stands in for the sources" is
+	// the image of that unit: per module, the image straight from the build (sources: external paths,
+	// compiler output) is compared with the same image after serialization in c.Format.
+	mods, err := perModuleImages(ctx, c.Src)
 	if err != nil {
 		t.Fatalf("harness: workspace does not build: %v", err)
 	}
-	imgSide, err := throughEncoding(full, c.Format)
-	r.Eval()
-	if err != nil {
-		r.Fail(t, "roundtrip:"+c.Format+":read-failed", fmt.Sprintf("image of the sources does not survive %s: %v", c.Format, err), c)
-		return
-	}
-	mods, err := perModuleImages(ctx, c.Src)
-	if err != nil {
-		t.Fatalf("harness: %v", err)
+	var oldMods []bufimage.Image
+	if c.What == "breaking" {
+		if oldMods, err = perModuleImages(ctx, *c.Old); err != nil {
+			t.Fatalf("harness: old workspace does not build: %v", err)
+		}
+		if len(mods) != len(oldMods) {
+			t.Fatalf("harness: module lists differ")
+		}
 	}
 	var srcAnns, imgAnns []bufx.Ann
-	switch c.What {
-	case "lint":
-		cfg, err := checkx.LintConfig(c.Version, c.Use, c.Except, nil, nil, checkx.LintOptions{})
+	for i, m := range mods {
+		imgSide, err := throughEncoding(m, c.Format)
+		r.Eval()
 		if err != nil {
-			t.Fatalf("harness: lint config: %v", err)
+			r.Fail(t, "roundtrip:"+c.Format+":read-failed", fmt.Sprintf("image of module %s does not survive %s: %v", c.Src.Mods[i].Dir, c.Format, err), c)
+			return
 		}
-		for _, m := range mods {
+		switch c.What {
+		case "lint":
+			cfg, err := checkx.LintConfig(c.Version, c.Use, c.Except, nil, nil, checkx.LintOptions{})
+			if err != nil {
+				t.Fatalf("harness: lint config: %v", err)
+			}
 			a, err := checkx.Lint(ctx, cfg, m)
 			if err != nil {
 				r.Fail(t, "lint-differs:source-side-error", err.Error(), c)
 				return
 			}
-			srcAnns = append(srcAnns, a...)
-		}
-		imgAnns, err = checkx.Lint(ctx, cfg, imgSide)
-		if err != nil {
-			r.Fail(t, "lint-differs:image-side-error", err.Error(), c)
-			return
-		}
-	case "breaking":
-		oldFull, err := c.Old.buildFull(ctx)
-		if err != nil {
-			t.Fatalf("harness: old workspace does not build: %v", err)
-		}
-		oldImgSide, err := throughEncoding(oldFull, c.Format)
-		if err != nil {
-			r.Fail(t, "roundtrip:"+c.Format+":read-failed", fmt.Sprintf("image of the old sources does not survive %s: %v", c.Format, err), c)
-			return
-		}
-		oldMods, err := perModuleImages(ctx, *c.Old)
-		if err != nil {
-			t.Fatalf("harness: %v", err)
-		}
-		cfg, err := checkx.BreakingConfig(c.Version, c.Use, c.Except, nil, nil, false)
-		if err != nil {
-			t.Fatalf("harness: breaking config: %v", err)
-		}
-		if len(mods) != len(oldMods) {
-			t.Fatalf("harness: module lists differ")
-		}
-		for i := range mods {
-			a, err := checkx.Breaking(ctx, cfg, mods[i], oldMods[i])
+			b, err := checkx.Lint(ctx, cfg, imgSide)
+			if err != nil {
+				r.Fail(t, "lint-differs:image-side-error", err.Error(), c)
+				return
+			}
+			srcAnns, imgAnns = append(srcAnns, a...), append(imgAnns, b...)
+		case "breaking":
+			oldImgSide, err := throughEncoding(oldMods[i], c.Format)
+			if err != nil {
+				r.Fail(t, "roundtrip:"+c.Format+":read-failed", fmt.Sprintf("image of old module %s does not survive %s: %v", c.Old.Mods[i].Dir, c.Format, err), c)
+				return
+			}
+			cfg, err := checkx.BreakingConfig(c.Version, c.Use, c.Except, nil, nil, false)
+			if err != nil {
+				t.Fatalf("harness: breaking config: %v", err)
+			}
+			a, err := checkx.Breaking(ctx, cfg, m, oldMods[i])
 			if err != nil {
 				r.Fail(t, "breaking-differs:source-side-error", err.Error(), c)
 				return
 			}
-			srcAnns = append(srcAnns, a...)
-		}
-		imgAnns, err = checkx.Breaking(ctx, cfg, imgSide, oldImgSide)
-		if err != nil {
-			r.Fail(t, "breaking-differs:image-side-error", err.Error(), c)
-			return
+			b, err := checkx.Breaking(ctx, cfg, imgSide, oldImgSide)
+			if err != nil {
+				r.Fail(t, "breaking-differs:image-side-error", err.Error(), c)
+				return
+			}
+			srcAnns, imgAnns = append(srcAnns, a...), append(imgAnns, b...)
 		}
 	}
 	finishChecks(t, r, c, annSet(srcAnns), annSet(imgAnns), "")
@@ -297,7 +293,7 @@ func genChk(ctx context.Context, t *rapid.T, kind string) *ChkCase {
 func TestChecksAPI(t *testing.T) {
 	r := evid.R()
 	ctx := context.Background()
-	r.Check(t, r.Scale(160, 3500), 6, func(t *rapid.T) {
+	r.Check(t, r.Scale(120, 2500), 6, func(t *rapid.T) {
 		c := genChk(ctx, t, "checks-api")
 		if c.What == "lint" {
 			c.Version = []string{"v1", "v2"}[rapid.IntRange(0, 1).Draw(t, "version")]
@@ -376,6 +372,20 @@ func (c *ChkCase) yamlExtra() string {
 	return b.String()
 }
 
+// moduleEntries returns the on-disk paths of the top-level entries of a module: `--path` on all of
+// them targets exactly that module (a module directory itself cannot be a --path).
+func moduleEntries(root string, s Src, dir string) []string {
+	set := map[string]bool{}
+	for p := range s.Files[dir] {
+		set[strings.SplitN(p, "/", 2)[0]] = true
+	}
+	var out []string
+	for _, e := range protogen.SortedKeys(set) {
+		out = append(out, filepath.Join(root, filepath.FromSlash(dir), e))
+	}
+	return out
+}
+
 func runChecksCLI(ctx context.Context, t fataler, r *evid.Recorder, c *ChkCase) {
 	cli := newCLI(t, "c11chk-")
 	defer cli.close()
@@ -384,38 +394,22 @@ func runChecksCLI(ctx context.Context, t fataler, r *evid.Recorder, c *ChkCase) 
 	writeTree(t, root, c.Src.treeFiles(extra))
 	cfgFile := filepath.Join(root, "buf.yaml")
 	ext := map[string]string{"binpb": "binpb", "json": "json.gz", "txtpb": "txtpb.zst", "yaml": "yaml"}[c.Format]
-	img := filepath.Join(cli.dir, "new."+ext)
-	if code, _, stderr := cli.run(ctx, "build", root, "-o", img); code != 0 {
-		t.Fatalf("harness: buf build of the generated workspace failed: %s", stderr)
-	}
-	var sargs, iargs []string
+	oldRoot := filepath.Join(cli.dir, "old")
 	prefixes := prefixesOf(root, c.Src)
-	switch c.What {
-	case "lint":
+	var sargs []string
+	if c.What == "lint" {
 		sargs = []string{"lint", root, "--error-format=json"}
-		iargs = []string{"lint", img, "--config", cfgFile, "--error-format=json"}
-	case "breaking":
-		oldRoot := filepath.Join(cli.dir, "old")
+	} else {
 		writeTree(t, oldRoot, c.Old.treeFiles(extra))
-		oldImg := filepath.Join(cli.dir, "old."+ext)
-		if code, _, stderr := cli.run(ctx, "build", oldRoot, "-o", oldImg); code != 0 {
-			t.Fatalf("harness: buf build of the old workspace failed: %s", stderr)
-		}
 		sargs = []string{"breaking", root, "--against", oldRoot, "--error-format=json"}
-		iargs = []string{"breaking", img, "--against", oldImg, "--config", cfgFile, "--error-format=json"}
 		prefixes = append(prefixes, prefixesOf(oldRoot, *c.Old)...)
 	}
-	scode, sout, serr := cli.run(ctx, sargs...)
-	icode, iout, ierr := cli.run(ctx, iargs...)
-	r.Eval()
-	how := fmt.Sprintf("[buf %s] vs [buf %s]: ", strings.Join(relArgs(sargs, cli.dir), " "), strings.Join(relArgs(iargs, cli.dir), " "))
 	okCode := func(code int) bool { return code == 0 || code == 100 }
+	scode, sout, serr := cli.run(ctx, sargs...)
+	r.Eval()
+	how := fmt.Sprintf("[buf %s] vs per-module images: ", strings.Join(relArgs(sargs, cli.dir), " "))
 	if !okCode(scode) {
 		r.Fail(t, c.What+"-differs:source-side-error", fmt.Sprintf("%sexit %d: %s", how, scode, serr), c)
-		return
-	}
-	if !okCode(icode) {
-		r.Fail(t, c.What+"-differs:image-side-error", fmt.Sprintf("%sexit %d: %s", how, icode, ierr), c)
 		return
 	}
 	sa, err := parseAnns(sout, prefixes)
@@ -423,22 +417,64 @@ func runChecksCLI(ctx context.Context, t fataler, r *evid.Recorder, c *ChkCase) 
 		r.Fail(t, c.What+"-differs:source-side-error", how+err.Error(), c)
 		return
 	}
-	ia, err := parseAnns(iout, prefixes)
-	if err != nil {
-		r.Fail(t, c.What+"-differs:image-side-error", how+err.Error(), c)
+	// the image side: one image per module (the unit the workspace is checked in), built by targeting
+	// exactly that module, then checked as an image input with the workspace's configuration
+	var ia []string
+	icodeAll := 0
+	build := func(src Src, rt string, dir, out string) bool {
+		args := []string{"build", rt, "-o", out}
+		for _, e := range moduleEntries(rt, src, dir) {
+			args = append(args, "--path", e)
+		}
+		if code, _, stderr := cli.run(ctx, args...); code != 0 {
+			r.Fail(t, c.What+"-differs:image-side-error", fmt.Sprintf("buf %s: exit %d: %s", strings.Join(relArgs(args, cli.dir), " "), code, stderr), c)
+			return false
+		}
+		return true
+	}
+	for i, m := range c.Src.Mods {
+		img := filepath.Join(cli.dir, fmt.Sprintf("new-%d.%s", i, ext))
+		if !build(c.Src, root, m.Dir, img) {
+			return
+		}
+		var iargs []string
+		if c.What == "lint" {
+			iargs = []string{"lint", img, "--config", cfgFile, "--error-format=json"}
+		} else {
+			oldImg := filepath.Join(cli.dir, fmt.Sprintf("old-%d.%s", i, ext))
+			if !build(*c.Old, oldRoot, c.Old.Mods[i].Dir, oldImg) {
+				return
+			}
+			iargs = []string{"breaking", img, "--against", oldImg, "--config", cfgFile, "--error-format=json"}
+		}
+		icode, iout, ierr := cli.run(ctx, iargs...)
+		if !okCode(icode) {
+			r.Fail(t, c.What+"-differs:image-side-error", fmt.Sprintf("buf %s: exit %d: %s", strings.Join(relArgs(iargs, cli.dir), " "), icode, ierr), c)
+			return
+		}
+		if icode > icodeAll {
+			icodeAll = icode
+		}
+		a, err := parseAnns(iout, prefixes)
+		if err != nil {
+			r.Fail(t, c.What+"-differs:image-side-error", err.Error(), c)
+			return
+		}
+		ia = append(ia, a...)
+	}
+	ia = dedupe(ia)
+	sort.Strings(ia)
+	if scode != icodeAll {
+		r.Fail(t, c.What+"-differs:exit-code", fmt.Sprintf("%sexit code %d against the sources, %d against the images", how, scode, icodeAll), c)
 		return
 	}
-	if scode != icode {
-		r.Fail(t, c.What+"-differs:exit-code", fmt.Sprintf("%sexit codes %d vs %d", how, scode, icode), c)
-		return
-	}
-	finishChecks(t, r, c, sa, ia, how)
+	finishChecks(t, r, c, dedupe(sa), ia, how)
 }
 
 func TestChecksCLI(t *testing.T) {
 	r := evid.R()
 	ctx := context.Background()
-	r.Check(t, r.Scale(40, 900), 7, func(t *rapid.T) {
+	r.Check(t, r.Scale(32, 500), 7, func(t *rapid.T) {
 		c := genChk(ctx, t, "checks-cli")
 		runChecksCLI(ctx, t, r, c)
 	})
